@@ -259,24 +259,25 @@ Definition in_sub {A} (m : list (path * list (N * A))) (p : path) (k : N) : bool
 Definition has_path {A} (m : list (path * A)) (p : path) : bool :=
   match plookup m p with Some _ => true | None => false end.
 
-(* resetGroupEarlierUsage *)
-Fixpoint unlink_apps (us : list (uname * utracker)) (l : list (app * uname)) : outcome (list (uname * utracker)) :=
+(* resetGroupEarlierUsage.  [fixed = false] is the pinned code, which dereferenced
+   m.userTrackers[u] without a check (finding C05-reload-nil-user, fixed) *)
+Fixpoint unlink_apps (fixed : bool) (us : list (uname * utracker)) (l : list (app * uname)) : outcome (list (uname * utracker)) :=
   match l with
   | [] => Ok us
   | (a, u) :: t =>
       match nlookup us u with
-      | None => Crash                               (* ut := m.userTrackers[u]; ut.appGroupTrackers *)
-      | Some ut => unlink_apps (nset u (mkUT (ndel a (ut_links ut)) (ut_qt ut)) us) t
+      | None => if fixed then unlink_apps fixed us t else Crash
+      | Some ut => unlink_apps fixed (nset u (mkUT (ndel a (ut_links ut)) (ut_qt ut)) us) t
       end
   end.
-Definition resetGroupEarlierUsage (s : ugm_state) (g : gname) (p : path) : outcome ugm_state :=
+Definition resetGroupEarlierUsage (fixed : bool) (s : ugm_state) (g : gname) (p : path) : outcome ugm_state :=
   match nlookup (groups s) g with
   | None => Ok s
   | Some gt =>
       if negb (isTracked p (gt_qt gt)) then Ok s else
       let '(q1, removed) := decreaseDownwards p (gt_qt gt) in
       let appUsers := flat_map (fun a => match nlookup (gt_apps gt) a with Some u => [(a, u)] | None => [] end) removed in
-      match unlink_apps (users s) appUsers with
+      match unlink_apps fixed (users s) appUsers with
       | Crash => Crash
       | Ok us =>
           let q2 := setLimit [] TGroup p None 0 false false q1 in
@@ -304,10 +305,10 @@ Definition ordl {A} (ord : bool) (l : list A) : list A := if ord then rev l else
    configuration that the new configuration no longer has *)
 Definition dropped {A} (ord : bool) (old new : list (path * list (N * A))) : list (path * N) :=
   flat_map (fun '(p, l) => flat_map (fun '(k, _) => if in_sub new p k then [] else [(p, k)]) (ordl ord l)) (ordl ord old).
-Fixpoint clearGroups (s : ugm_state) (l : list (path * gname)) : outcome ugm_state :=
+Fixpoint clearGroups (fixed : bool) (s : ugm_state) (l : list (path * gname)) : outcome ugm_state :=
   match l with
   | [] => Ok s
-  | (p, g) :: t => match resetGroupEarlierUsage s g p with Crash => Crash | Ok s' => clearGroups s' t end
+  | (p, g) :: t => match resetGroupEarlierUsage fixed s g p with Crash => Crash | Ok s' => clearGroups fixed s' t end
   end.
 Definition clearUsers (s : ugm_state) (l : list (path * uname)) : ugm_state :=
   fold_left (fun s '(p, u) => resetUserEarlierUsage s u p) l s.
@@ -361,7 +362,7 @@ Definition update_config_gen (fixed : bool) (pg : list (path * gname) -> list (p
            (s : ugm_state) (conf : qconf) (rootName : qname) : uc_result :=
   let '(s1, nm, ok) := ipc fixed conf [cfgname fixed rootName] (s, nm_empty) in
   if negb ok then UErr s1 else
-  match clearGroups s1 (pg (dropped false (groupLimits s1) (nGL nm))) with
+  match clearGroups fixed s1 (pg (dropped false (groupLimits s1) (nGL nm))) with
   | Crash => UCrash
   | Ok s2 =>
       let s3 := clearUsers s2 (dropped ord (userLimits s2) (nUL nm)) in
@@ -370,6 +371,6 @@ Definition update_config_gen (fixed : bool) (pg : list (path * gname) -> list (p
       UOk (replaceLimitConfigs s5 nm)
   end.
 
-(* the code as it is now in /repo (with the two fix: commits), maps iterated in list order *)
+(* the code as it is now in /repo (with the three fix: commits), maps iterated in list order *)
 Definition ugm_update_config (s : ugm_state) (conf : qconf) (rootName : qname) : uc_result :=
   update_config_gen true (fun l => l) false s conf rootName.
